@@ -346,6 +346,7 @@ func registerAll() {
 	ev.Register("models", judged)
 	ev.Register("corpus", corpusOracle)
 	ev.Register("edge-spellings", corpusOracle)
+	ev.Register("annotation-twins", twinOracle)
 	ev.Register("feature-table", oracle)
 }
 
@@ -488,6 +489,102 @@ func TestPropEdgeSpellings(t *testing.T) {
 	ev.Exhaustive("edge-spellings", fmt.Sprintf("%d hand-written texts x 5 context-free re-layouts", len(texts)))
 	if bad > 0 {
 		t.Errorf("VIOLATION-CANDIDATE edge-spellings: %d", bad)
+	}
+}
+
+// TwinCase: the same annotation written inline and as a block (`// A` versus `/* A */`), in one of several
+// places; the block form in one of its spellings
+type TwinCase struct {
+	Body  string `json:"body"`  // what stands inside the annotation
+	Place int    `json:"place"` // 0 root scalar; 1 property of an object; 2 item of an array; 3 on the opening brace
+	Block int    `json:"block"` // spelling of the block form
+}
+
+func (c TwinCase) texts() (inline, block string) {
+	bl := []string{"/* " + c.Body + " */", "/*" + c.Body + "*/", "/* " + c.Body + "\n*/", "/*\n  " + c.Body + "\n*/", "/* " + c.Body + "\n */"}[c.Block%5]
+	in := "// " + c.Body
+	if c.Block%5 == 1 {
+		in = "//" + c.Body
+	}
+	wrap := func(a string) string {
+		switch c.Place % 4 {
+		case 1:
+			return "{\n  \"a\": 12, " + a + "\n  \"b\": 2\n}"
+		case 2:
+			return "[\n  12 " + a + "\n]"
+		case 3:
+			return "{ " + a + "\n  \"k\": 12\n}"
+		}
+		return "12 " + a
+	}
+	return wrap(in), wrap(bl)
+}
+
+func twinOracle(c TwinCase) *ev.Verdict {
+	ti, tb := c.texts()
+	a, b := sut.Observe(sut.Project{Root: ti}), sut.Observe(sut.Project{Root: tb})
+	if len(a.Escapes)+len(b.Escapes) > 0 {
+		return nil // (C02)
+	}
+	if (a.Check == nil) != (b.Check == nil) {
+		return ev.V("twins:verdict", "inline %q: %v; block %q: %v", ti, a.Check, tb, b.Check)
+	}
+	if a.Check != nil {
+		if lateCode(a.Check.Code) && a.Check.Code != b.Check.Code {
+			return ev.V("twins:code", "inline %q: %v; block %q: %v", ti, a.Check, tb, b.Check)
+		}
+		return nil
+	}
+	if what, detail := firstDiff(a, b); what != "" && what != "len" {
+		return ev.V("twins:"+what, "inline %q and block %q differ in %s", ti, tb, detail)
+	}
+	return nil
+}
+
+// every annotation body of a small grammar (rules / no rules, dash / no dash, note / empty note, blanks) in
+// inline and in block style
+func TestPropAnnotationTwins(t *testing.T) {
+	registerAll()
+	ev.KeepFirst("annotation-twins")
+	var bodies []string
+	for _, rules := range []string{"", "{min: 1}", "{}", "{min: 1, max: 20}", "{\"min\": 1}"} {
+		for _, dash := range []string{"", "-", " -", " - ", "-  "} {
+			for _, note := range []string{"", "n", "a note", "-5 is low", "note - with dash"} {
+				if rules == "" && dash == "" && note == "" {
+					continue
+				}
+				bodies = append(bodies, rules+dash+note)
+			}
+		}
+	}
+	var n, bad int64
+	idx := 0
+	for _, body := range bodies {
+		for place := 0; place < 4; place++ {
+			if place == 3 && strings.Contains(body, "min") {
+				continue // (min is not a rule of objects)
+			}
+			for block := 0; block < 5; block++ {
+				idx++
+				if !ev.Mine(idx) {
+					continue
+				}
+				c := TwinCase{Body: body, Place: place, Block: block}
+				n++
+				ev.NonTrivial("annotation-twins", fmt.Sprintf("%s/%d/%d", body, place, block))
+				if n%97 == 1 {
+					ev.Sample("annotation-twins", c)
+				}
+				if v := twinOracle(c); v != nil && ev.Report("annotation-twins", c, v) {
+					bad++
+				}
+			}
+		}
+	}
+	ev.Count("annotation-twins", n)
+	ev.Exhaustive("annotation-twins", fmt.Sprintf("%d annotation bodies (rules x dash x note) x 4 places x 5 block spellings, each against its inline twin", len(bodies)))
+	if bad > 0 {
+		t.Errorf("VIOLATION-CANDIDATE annotation-twins: %d", bad)
 	}
 }
 
